@@ -128,8 +128,10 @@ impl<T: Alignment> Write for AlignedCursor<T> {
         }
 
         let cap = self.vec.len().saturating_mul(std::mem::size_of::<T>());
-        let rem = cap - self.pos;
-        if rem < len {
+        // Note that the position can be beyond the capacity (after a seek
+        // or a set_position): in that case the gap is filled with zeros, as
+        // in std::io::Cursor, even if the buffer is empty.
+        if self.pos + len > cap {
             self.vec.resize(
                 (self.pos + len).div_ceil(std::mem::size_of::<T>()),
                 T::default(),
